@@ -9,9 +9,8 @@ Section RoundTrip.
   Variable A : Type.
   Notation dict := (dict A).
 
-  Definition entry_of (sv : list str * option A) : dict :=
-    match fst sv, snd sv with p :: _, Some a => [(p, a)] | _, _ => [] end.
-  Definition write_fields (sc : schema) (vals : list (option A)) : dict := flat_map entry_of (combine sc vals).
+  Notation entry_of := (entry_of A).
+  Notation write_fields := (write_fields A).
 
   Lemma mem_in k l : existsb (str_eqb k) l = true <-> In k l.
   Proof.
